@@ -123,3 +123,32 @@ Print Assumptions C33_kernel_peerRoleHas.
 Theorem C33_kernel_params : Link_C33.kernel_params_pinned.
 Proof. exact Link_C33.kernel_params_ok. Qed.
 Print Assumptions C33_kernel_params.
+
+(* ---- atomicity of PacketPool.Put.  `put` is ONE atomic test-and-insert step and every
+   theorem above is about sequences of such steps (the write lock of Put must cover both
+   halves).  With callers whose test and insertion are adjacent, the same hash offered by any
+   number of callers is "new" for at most one of them ---- *)
+Theorem C33_atomic_put_one_winner : forall NB LB, (1 <= NB)%nat -> forall cs p h seen p' ws,
+  Inv NB p -> (0 < Z.of_nat (NB - 1) * LB)%Z ->
+  put_split NB LB p h seen (atomic_sched cs) = Some (p', ws) -> (length ws <= 1)%nat.
+Proof. exact atomic_put_one_winner. Qed.
+Print Assumptions C33_atomic_put_one_winner.
+
+(* REFUTED variant (the test and the insertion schedulable separately, i.e. the test under a
+   read lock and no re-test under the write lock): from every pool state that does not hold h,
+   the interleaving test0, test1, insert0, insert1 tells BOTH callers "new" *)
+Theorem C33_split_put_refuted : forall NB LB, (1 <= NB)%nat -> forall p h,
+  Inv NB p -> contains NB p h = Some false ->
+  exists p1 p2, put_insert NB LB p h = Some p1 /\ put_insert NB LB p1 h = Some p2 /\
+    put_split NB LB p h [] [SCheck 0; SCheck 1; SInsert 0; SInsert 1] = Some (p2, [0%nat; 1%nat]).
+Proof. exact split_put_refuted. Qed.
+Print Assumptions C33_split_put_refuted.
+
+Theorem C33_put_is_check_then_insert : forall NB LB p h,
+  put NB LB p h = match contains NB p h with
+                  | None => None
+                  | Some true => Some (p, false)
+                  | Some false => match put_insert NB LB p h with Some q => Some (q, true) | None => None end
+                  end.
+Proof. exact put_check_then_insert. Qed.
+Print Assumptions C33_put_is_check_then_insert.
